@@ -456,11 +456,12 @@ class DefinitionsMapper:
         Yields:
             An iterator of class attrs.
         """
-        parts = []
+        parts = None
         if "part" in extended.attributes:
-            parts.append(extended.attributes["part"])
+            parts = [extended.attributes["part"]]
         elif "parts" in extended.attributes:
-            parts.extend(extended.attributes["parts"].split())
+            # An empty list means no parts at all
+            parts = extended.attributes["parts"].split()
 
         if "message" in extended.attributes:
             message_name = namespaces.local_name(extended.attributes["message"])
@@ -470,7 +471,7 @@ class DefinitionsMapper:
         definition_message = definitions.find_message(message_name)
         message_parts = definition_message.parts
 
-        if parts:
+        if parts is not None:
             message_parts = [part for part in message_parts if part.name in parts]
 
         yield from cls.build_parts_attributes(message_parts, ns_map)
